@@ -30,6 +30,7 @@ TypeByName(n) ==
     [] n = "cpint" -> Qual(Ptr(B("int")), {"const"})
     [] n = "pvoid" -> Ptr(Void)
     [] n = "a2int" -> Arr(B("int"), 2)
+    [] n = "a2cint" -> Arr(Qual(B("int"), {"const"}), 2)
     [] n = "a0int" -> Arr(B("int"), 0)
     [] n = "fvi" -> Fn(Void, <<B("int")>>, FALSE)
 Leaves == {TypeByName(n) : n \in LeafNames}
